@@ -260,6 +260,10 @@ pub fn actions(al: &Alpha) -> Vec<(Act, u8)> {
         // outside the quantified domain: a huge page mapped with its PAT bit (bit 12)
         if sz > 0 {
             v.push((Act::Map { page: pi, frame: 0, flags: LEAF_PAT_HUGE, parent: 0, sched: 0 }, 1));
+        } else {
+            // the same flag word on a 4 KiB leaf, where bit 12 is also an address bit: frames with that bit clear and set
+            v.push((Act::Map { page: pi, frame: 0, flags: LEAF_PAT_HUGE, parent: 0, sched: 0 }, 1));
+            v.push((Act::Map { page: pi, frame: 1, flags: LEAF_PAT_HUGE, parent: 0, sched: 0 }, 1));
         }
         // outside the quantified domain: flags without PRESENT
         v.push((Act::Update { page: pi, flags: LEAF_OOD }, 1));
